@@ -84,7 +84,7 @@ def check_C02(ctx):
         "dying": lambda: [T("h1", body=["P", "K11"]), T("h2", body=["F", "E"])],
     }
     victims = [lambda: T("v", ctx=1, body=["P", "F", "MF", "P"], setup=["P"], teardown=["F"]),
-               lambda: T("v", body=["F"]), lambda: T("v", body=[])]
+               lambda: T("v", body=["F"]), lambda: T("v", body=[]), lambda: T("v", body=["P", "S", "F"])]
     n = 0
     for point in KILL_POINTS:
         for how in KILL_HOWS:
@@ -127,7 +127,7 @@ def check_C02(ctx):
             if pa.get(path) != pb.get(path):
                 bad += 1
                 ctx.violation(f"[C02] test {path} is reported differently when test v dies ({s.kill}) than when v is absent: {pa.get(path)} vs {pb.get(path)}",
-                              s.text(), found_input=True, facts=c02_facts(s, None) if False else {"kill_point": s.kill[0]})
+                              s.text(), found_input=True, facts={"kill_point": s.kill[0]})
                 break
     ctx.coverage["differential_pairs"] = len(sub)
     ctx.coverage["samples"] = sample_of(scens)
@@ -135,3 +135,157 @@ def check_C02(ctx):
     ctx.coverage["distinct_nontrivial"] = len({s.text() for s in scens})
     ctx.coverage["kill_points"] = KILL_POINTS
     ctx.coverage["ways_of_dying"] = KILL_HOWS
+
+
+def measure_cap(bench):
+    s = Scen(S("top", items=[T("big", body=["P"] * 20000)]))
+    o = bench.run_many([(s.text(), "text")])[0]
+    tot = observed_totals(o, "text")
+    return int(tot[0])
+
+
+def oracle_C18(scen, m, o, reporter):
+    if status_of(o) == "timeout":
+        return "run did not terminate"
+    if scen.mode == "fork":
+        e = oracle_C03(scen, m, o, reporter)
+        if e:
+            return e
+        return oracle_C01(scen, m, o, reporter)
+    # in-process: the writer owns the verdict; an overflow ends the run with a failing (signal) status
+    st = status_of(o)
+    overflow = any(len([a for a in t.acts() if a in ("P", "F", "S")]) + 1 > scen.cap for _, t in scen.root.tests())
+    if overflow:
+        if st in ("0", "exit0"):
+            return f"a test overflowed the result channel in-process but the run ended with status {st}"
+        return None
+    return oracle_C03(scen, m, o, reporter) or oracle_C01(scen, m, o, reporter)
+
+
+def check_C18(ctx):
+    runner_lean(ctx)
+    rng = random.Random(ctx.seed * 1000 + 18)
+    bench = Bench(ctx)
+    cap = measure_cap(bench)
+    ctx.coverage["measured_capacity_records"] = cap
+    ctx.oblige("the result channel has a finite measured capacity (model parameter `cap`)", cap > 0, str(cap))
+    ks = [0, 1, cap - 2, cap - 1, cap, cap + 1, cap + 2, 2 * cap, 2 * cap + 1, 3 * cap - 1]
+    if ctx.tier == "thorough":
+        ks += [cap - 3, cap + 3, cap // 2, 2 * cap - 1, 3 * cap, 3 * cap + 7] + [rng.randrange(cap - 50, cap + 50) for _ in range(10)]
+    scens = []
+    for k in ks:
+        for what in ("P", "F", "mix"):
+            body = [what] * k if what != "mix" else [rng.choice("PF") for _ in range(k)]
+            for pos in (0, 1, 2):
+                for mode in ("fork", "inproc"):
+                    if ctx.tier == "quick" and (len(scens) + ctx.seed) % 2 == 1 and k not in (cap - 1, cap, cap + 1):
+                        scens.append(None); continue
+                    # with all-pass neighbours the overflow is the only thing wrong in the run
+                    others = [T("a", body=["P", "F"] if what != "P" else ["P", "P"]), T("b", body=["P"])]
+                    tests = others[:pos] + [T("big", body=body)] + others[pos:]
+                    root = S("top", items=[S("inner", items=tests[:2]), tests[2]]) if pos != 1 else S("top", items=tests)
+                    scens.append(Scen(root, mode=mode, cap=cap))
+    scens = [s for s in scens if s is not None]
+    dis, orf = explore(ctx, bench, scens, ["text", "cute"], oracle_C18, "C18", check_events=True)
+    report(ctx, bench, dis, orf, oracle_C18, "C18")
+    ctx.coverage["samples"] = [f"k={len(t.body)} checks in test 'big', mode {s.mode}" for s in scens[:6] for _, t in s.root.tests() if t.name == "big"]
+    ctx.coverage["evaluations"] = ctx.coverage["correspondence"]["cases"]
+    ctx.coverage["distinct_nontrivial"] = len({s.text() for s in scens})
+    ctx.coverage["check_counts"] = sorted(set(ks))
+
+
+def expected_phases(su, td, t):
+    ph = []
+    if su: ph.append("suiteSetup")
+    elif t.ctx: ph.append("ctxSetup")
+    ph.append("body")
+    if td: ph.append("suiteTeardown")
+    elif t.ctx: ph.append("ctxTeardown")
+    return ph
+
+
+def oracle_C08(scen, m, o, reporter):
+    """Judged on the implementation's own event log: per executed test the phases are a prefix of
+    setup/body/teardown (all of them when the test completes), in one process; xEnsure tests log nothing;
+    a suite's fixtures bracket each sub-suite once, in the runner's process."""
+    evs = [l.split(" ") for l in o.events if l.startswith("ev ")]
+    by_path = {}
+    for _, pid, path, ph in evs:
+        by_path.setdefault(path, []).append((pid, ph))
+    single = scen.mode[7:] if scen.mode.startswith("single:") else None
+    errs = []
+
+    def walk(s, path, reached):
+        p = path + [s.name]
+        subs = [i for i in s.items if isinstance(i, S)]
+        if single is not None:
+            subs = [c for c in subs if any(t.name == single for _, t in c.tests())]
+        # brackets: events logged at the suite's own path
+        got = by_path.get("/".join(p), [])
+        if reached:
+            want = []
+            for c in subs:
+                if s.su: want.append("suiteSetup")
+                if s.td: want.append("suiteTeardown")
+            if status_of(o) in ("0", "1"):
+                if [ph for _, ph in got] != want:
+                    errs.append(f"suite {'/'.join(p)}: fixture events around sub-suites {[ph for _, ph in got]}, expected {want}")
+                if any(pid != "0" for pid, _ in got):
+                    errs.append(f"suite {'/'.join(p)}: sub-suite fixtures ran outside the runner's process")
+        for c in subs:
+            walk(c, p, reached)
+        for t in s.items:
+            if not isinstance(t, T):
+                continue
+            tp = "/".join(p + [t.name])
+            got = by_path.get(tp, [])
+            if t.x or (single is not None and t.name != single):
+                if got:
+                    errs.append(f"test {tp} must not run anything but logged {got}")
+                continue
+            want = expected_phases(s.su, s.td, t)
+            seq = [ph for _, ph in got]
+            if seq != want[:len(seq)]:
+                errs.append(f"test {tp}: phases {seq} are not a prefix of {want}")
+            if len({pid for pid, _ in got}) > 1:
+                errs.append(f"test {tp}: phases ran in several processes {got}")
+            tt = per_test_truth(m).get(tp)
+            completes = tt is not None and tt[3] == 0
+            if completes and status_of(o) in ("0", "1") and seq != want:
+                errs.append(f"test {tp} completed but its phases were {seq}, expected {want}")
+            if got and scen.mode == "fork" and got[0][0] == "0":
+                errs.append(f"test {tp}: test code ran in the runner's process in forking mode")
+    walk(scen.root, [], True)
+    return "; ".join(errs[:3]) if errs else None
+
+
+def check_C08(ctx):
+    runner_lean(ctx)
+    rng = random.Random(ctx.seed * 1000 + 8)
+    bench = Bench(ctx)
+    scens = []
+    # systematic fixture combinations x outcomes
+    outcomes = {"pass": ["P"], "fail": ["F", "P"], "skip": ["S", "P"], "die": ["P", "K11", "P"], "exit": ["E"], "mock": ["MF", "MP"]}
+    for su in (0, 1):
+        for td in (0, 1):
+            for ctxv in (0, 1):
+                for oname, body in outcomes.items():
+                    t = T("t", ctx=ctxv, body=body, setup=["P"] if ctxv else [], teardown=["F"] if ctxv and oname == "fail" else [])
+                    root = S("top", su=su, td=td, items=[S("sub", su=td, td=su, items=[T("u", ctx=ctxv, body=["P"]), T("x", x=1, body=["P"])]), t])
+                    for mode in ("fork", "inproc", "single:t", "single:u", "single:x"):
+                        if mode != "fork" and oname in ("die", "exit") and ctx.tier == "quick" and (su + td + ctxv) % 2:
+                            continue
+                        scens.append(Scen(root.copy(), mode=mode))
+    for _ in range(sizes(ctx, 80, 2000)):
+        tree = gen_tree(rng, max_tests=8)
+        mode = rng.choice(["fork", "fork", "inproc"])
+        if rng.random() < 0.25:
+            names = [t.name for _, t in tree.tests()]
+            if names:
+                mode = "single:" + rng.choice(names)
+        scens.append(Scen(tree, mode=mode))
+    dis, orf = explore(ctx, bench, scens, ["text"], oracle_C08, "C08", check_events=True)
+    report(ctx, bench, dis, orf, oracle_C08, "C08")
+    ctx.coverage["samples"] = sample_of(scens)
+    ctx.coverage["evaluations"] = ctx.coverage["correspondence"]["cases"]
+    ctx.coverage["distinct_nontrivial"] = len({s.text() for s in scens})
